@@ -423,9 +423,20 @@ def r6(ctx):
     # fixed-length C strings
     em = ctx.repo.module("pyairtouch.comms.encoding")
     fn = em.get_function("decode_c_string")
-    rets = [x for x in ast.walk(fn) if isinstance(x, ast.Return)]
-    txt = norm_text(rets[0].value) if len(rets) == 1 else ""
-    ctx.check(txt in ("value.split(b'\\x00', 1)[0].decode(encoding=STRING_ENCODING)", "value.partition(b'\\x00')[0].decode(encoding=STRING_ENCODING)"), R, "encoding.decode_c_string", em, fn, "everything before the first NUL, decoded as UTF-8", txt)
+    from ..minieval import Mini, Unsupported
+
+    bad = None
+    pv = fn.args.args[0].arg
+    for raw in (b"Bed\0\0\0\0\0", b"Bedroom1", b"Bed\0room", b"\0abc", b"", b"caf\xc3\xa9\0\0", b"Daikin\0Upstairs\0", b"\0\0\0"):
+        want = raw.split(b"\0", 1)[0].decode("utf-8")
+        try:
+            got = Mini(ctx.repo, em, {}).function_value(fn, {pv: raw})
+        except Unsupported as ex:
+            raise AnalysisError(f"{em.relpath}: decode_c_string left the evaluable fragment: {ex}")
+        if got != want:
+            bad = f"decode_c_string({raw!r}) = {got!r}, expected {want!r}"
+            break
+    ctx.check(bad is None, R, "encoding.decode_c_string", em, fn, "everything before the first NUL, decoded as UTF-8 (8 witnesses, stale bytes after the terminator included)", bad or "")
     enc = ctx.repo.try_fold(em, em.get_const_expr("STRING_ENCODING"))
     ctx.check(enc == "utf-8", R, "encoding.STRING_ENCODING", em, em.assign_nodes["STRING_ENCODING"], "'utf-8'", repr(enc))
     gm = ctx.repo.module("pyairtouch.at4.comms.x1FFF12_group_names")
